@@ -27,7 +27,7 @@ ASSUMPTIONS = [
 ]
 CONFIG = {
     "quick": {"examples": 960, "shards": 16, "shrink_s": 40, "time_budget_s": 240},
-    "thorough": {"examples": 16000, "shards": 16, "shrink_s": 200, "time_budget_s": 1500},
+    "thorough": {"examples": 110000, "shards": 16, "shrink_s": 200, "time_budget_s": 1500},
 }
 ROUNDTRIPS = ["copy", "jit", "vmap", "flatten"]
 
